@@ -315,3 +315,55 @@ func vFallbackGraphs() (int, []string) {
 
 //@ bounded vFallbackGraphs RenderValue over every fallback graph on three author styles that are fixed, additive or range-restricted (1 728 graphs incl. cycles) x 3 start styles x the values -1, 1, 3, 7: returns a non-empty representation
 //@   props C19 C01
+
+// bounded stand-in (C19, "range with fallback"): a value a style cannot render is rendered by its fallback style WITH
+// THAT STYLE'S OWN algorithm, also when both styles use the same system (only a style met twice ends the chain with
+// decimal). vFallbackChains renders 16 (chain, value) pairs whose expected text is written out from Counter Styles 3
+// §2 and §3.1: additive -> additive, numeric -> numeric, alphabetic -> numeric -> numeric, fixed -> fixed,
+// cyclic -> cyclic, symbolic -> symbolic, each with in-range and out-of-range values.
+func vFallbackChains() (n int, fails []string) {
+	sym := func(s string) pr.NamedString { return pr.NamedString{Name: "string", String: s} }
+	syms := func(l ...string) (out []pr.NamedString) {
+		for _, s := range l {
+			out = append(out, sym(s))
+		}
+		return out
+	}
+	rng := func(lo, hi int) pr.OptionalRanges { return pr.OptionalRanges{Ranges: [][2]int{{lo, hi}}} }
+	sys := func(s string) CounterStyleSystem { return CounterStyleSystem{"", s, 0} }
+	cs := CounterStyle{
+		"decimal": {System: sys("numeric"), Symbols: syms("0", "1", "2", "3", "4", "5", "6", "7", "8", "9"), Fallback: "decimal"},
+		"dots":    {System: sys("additive"), AdditiveSymbols: []pr.IntNamedString{{Int: 1, NamedString: sym(".")}}, Range: rng(1, 3), Fallback: "rom"},
+		"rom":     {System: sys("additive"), AdditiveSymbols: []pr.IntNamedString{{Int: 5, NamedString: sym("V")}, {Int: 4, NamedString: sym("IV")}, {Int: 1, NamedString: sym("I")}}},
+		"bin":     {System: sys("numeric"), Symbols: syms("0", "1"), Range: rng(0, 7), Fallback: "oct"},
+		"oct":     {System: sys("numeric"), Symbols: syms("0", "1", "2", "3", "4", "5", "6", "7")},
+		"abc":     {System: sys("alphabetic"), Symbols: syms("a", "b", "c"), Range: rng(1, 3), Fallback: "bin"},
+		"f1":      {System: CounterStyleSystem{"", "fixed", 1}, Symbols: syms("X", "Y"), Fallback: "f2"},
+		"f2":      {System: CounterStyleSystem{"", "fixed", 1}, Symbols: syms("P", "Q", "R", "S")},
+		"cyc1":    {System: sys("cyclic"), Symbols: syms("x"), Range: rng(1, 2), Fallback: "cyc2"},
+		"cyc2":    {System: sys("cyclic"), Symbols: syms("A", "B")},
+		"s1":      {System: sys("symbolic"), Symbols: syms("+"), Range: rng(1, 2), Fallback: "s2"},
+		"s2":      {System: sys("symbolic"), Symbols: syms("*")},
+	}
+	for _, c := range []struct {
+		style string
+		value int
+		want  string
+	}{
+		{"dots", 2, ".."}, {"dots", 4, "IV"}, {"dots", 7, "VII"},
+		{"bin", 5, "101"}, {"bin", 8, "10"}, {"bin", 64, "100"},
+		{"abc", 2, "b"}, {"abc", 4, "100"}, {"abc", 9, "11"},
+		{"f1", 2, "Y"}, {"f1", 3, "R"}, {"f1", 5, "5"},
+		{"cyc1", 2, "x"}, {"cyc1", 3, "A"},
+		{"s1", 2, "++"}, {"s1", 3, "***"},
+	} {
+		n++
+		if got := cs.RenderValue(c.value, c.style); got != c.want && len(fails) < 6 {
+			fails = append(fails, fmt.Sprintf("RenderValue(%d, %q) is %q, expected %q", c.value, c.style, got, c.want))
+		}
+	}
+	return n, fails
+}
+
+//@ bounded vFallbackChains 16 (fallback chain, value) pairs over six pairs of styles sharing a system (additive, numeric, alphabetic -> numeric -> numeric, fixed, cyclic, symbolic) with explicit ranges: the text is the one Counter Styles 3 gives (the fallback style's own algorithm, decimal only at the end of the chain)
+//@   props C19
